@@ -14,6 +14,13 @@ pub fn bodies() -> Vec<(&'static str, Body)> {
         ("compute_and_or_g6", crate::c01_compute::compute_and_or_g6::<ReplaySource> as Body),
         ("compute_and_or_g7", crate::c01_compute::compute_and_or_g7::<ReplaySource> as Body),
         ("compute_and_or_g8", crate::c01_compute::compute_and_or_g8::<ReplaySource> as Body),
+        ("compute_and_or_g9", crate::c01_compute::compute_and_or_g9::<ReplaySource> as Body),
+        ("compute_and_or_g10", crate::c01_compute::compute_and_or_g10::<ReplaySource> as Body),
+        ("compute_and_or_g11", crate::c01_compute::compute_and_or_g11::<ReplaySource> as Body),
+        ("if_chain_plain", crate::c06_ifexpr::if_chain_plain::<ReplaySource> as Body),
+        ("if_chain_boxed", crate::c06_ifexpr::if_chain_boxed::<ReplaySource> as Body),
+        ("if_branch", crate::c06_ifexpr::if_branch::<ReplaySource> as Body),
+        ("if_branch_light", crate::c06_ifexpr::if_branch_light::<ReplaySource> as Body),
         ("se_prefix_simple", crate::c08_steps::se_prefix_simple::<ReplaySource> as Body),
         ("se_prefix_nested", crate::c08_steps::se_prefix_nested::<ReplaySource> as Body),
         ("se_field", crate::c08_steps::se_field::<ReplaySource> as Body),
